@@ -7,6 +7,14 @@ import itertools
 from ..runner import Ctx, Unit
 from ..val import Err
 
+MANIFEST = {
+    "text": "Coq theorems over _dns.py with the sort key, f-strings, rstrip argument and resolve() arguments regenerated from the source: for every non-empty answer list (unbounded) the "
+            "selected record is a member with minimal priority and, among those, maximal weight; port/weight/priority copied, target stripped of trailing dots; selection is invariant under "
+            "permutation up to ties; the query name is prefix.domain or the bare prefix; sync and async lookups are the same normalised AST. Tie: kernels + correspondence on all multisets/permutations, both flavours.",
+    "note": "Assumes sorted() stability (first minimiser) and the resolver contract; sync=async is a syntactic comparison backed by running both flavours.",
+    "technique": "Coq proof (induction over the answer list, lia over regenerated sort key) + exhaustive small-domain correspondence",
+}
+
 ASSUMPTIONS = [
     "dns.resolver.resolve / dns.asyncresolver.resolve return the answer set for the queried name (replaced by a scripted answer in the harness)",
     "sorted() is stable, so sorted(...)[0] is the first minimiser (modelled as such; validated by the exhaustive permutation sweep)",
